@@ -49,5 +49,8 @@ def det(a: PolyLike) -> ndpoly:
     for idx in range(dims):
         idx0 = index + (0, idx)
         idx1 = index + (slice(1, None), (r + idx) % dims)
-        out = out + a[idx0] * det(a[idx1])
+        # the minor's columns are rotated, not sorted: for an even number of
+        # dimensions the rotation does not absorb the cofactor sign.
+        sign = -1 if (dims % 2 == 0 and idx % 2) else 1
+        out = out + sign * a[idx0] * det(a[idx1])
     return out
